@@ -36,7 +36,7 @@ func genLogK(rt *rapid.T, w Weights, minOps, maxOps int, drivePct int) (*History
 	alive = st.Res.OK
 	n := rapid.IntRange(minOps, maxOps).Draw(rt, "n-ops")
 	for i := 0; i < n && alive; i++ {
-		o := g.Next(rt, wd, h.Steps[len(h.Steps)-1].Post)
+		o := excludeKnown(g.Next(rt, wd, h.Steps[len(h.Steps)-1].Post), GlobalCollector(""))
 		st, _ := h.Exec(o)
 		if st.Op.Kind == OpBlock && !st.Res.OK {
 			alive = false
